@@ -135,6 +135,21 @@ def input_forms():
             targets = re.findall(r"[A-Z][0-9]\$?", src.split(";")[-1] if ";" in src else src.split("INPUT")[-1])
             exp = "INPUT " + prompt + ", " + ", ".join(targets)
             res.append(ob("input/%s" % src, text == exp, exp, text, "same prompt (plus `? ` unless LINE INPUT), same targets in order"))
+        # the prompt is content: whatever characters it holds (a final `?`, trailing or leading blanks, punctuation, empty), INPUT
+        # shows it followed by `? `, LINE INPUT shows it as it is
+        bad = []
+        prompts = ["WHO?", "WHO??", "A?B", "?", "NAME  ", "  NAME", " ", "", "a;b", "a,b", "x:y", "ENTER (Y/N)?", "1"]
+        for pr in prompts:
+            for kw, want in (("INPUT", pr + "? "), ("LINE INPUT", pr)):
+                src = '%s "%s";A1$' % (kw, pr)
+                try:
+                    st, _ = f2.build("input_statement", src, operand_rules={})
+                    text = norm(st.basic09_text(0))
+                except Exception as e:  # noqa
+                    text = "%s: %s" % (type(e).__name__, str(e)[:80])
+                if text != 'INPUT "%s", A1$' % want:
+                    bad.append(dict(source=src, expected='INPUT "%s", A1$' % want, got=text))
+        res.append(ob("input/prompt text of every shape", not bad, "prompt + `? ` (INPUT) or the prompt itself (LINE INPUT), character for character", bad[:4] or "%d prompts" % len(prompts)))
         # wrapper: cursor / duplex calls around the statement, statement itself unchanged
         st = E.BasicInputStatement(None, [OpqExp("r")])
         w = V.BasicInputStatementPatcherVisitor().visit_input_statement(st)
